@@ -245,28 +245,37 @@ def judge_cut_history():
     cfg = mk(p["ra"], p["dec"], p["date"], p["T"], p["N"], p["lat"], p["lon"], p["alt"], p["limb"], sm=sm)
     fr = np.arange(48) / 48.0
     night = fr[(fr > 0.55) & (fr < 0.8)]
-    batches = [night, night - 0.5 + 1e-3, night, fr[:12], fr[12:24]]
+    # the same instants in another order, and other instants with the same count, first and last element
+    inner = night.copy()
+    inner[1:-1] = inner[1:-1] - 0.5 + 1e-3
+    day_night = np.concatenate([fr[(fr > 0.2) & (fr < 0.45)][: len(night) // 2], night[: len(night) - len(night) // 2]])
+    batches = [night, night - 0.5 + 1e-3, night, fr[:12], fr[12:24], night[::-1].copy(), inner, day_night, day_night[::-1].copy()]
+    steps = [(k, "Optical") for k in range(len(batches))] + [(0, "Radio"), (7, "Radio")]
 
-    def contrib(g, t):
+    def contrib(g, t, method="Optical"):
         g.throw(np.array(t, dtype=float))
         n = len(g.pathLens())
         rec = {}
         if n == 0:
             return b""
-        g.mcintegral(np.full(n, 100.0), np.full(n, math.cos(math.radians(1.5))), np.full(n, 0.5), 10.0, 1.0, 1.0, lenDec=np.zeros(n), method="Optical", store=lambda names, cols: rec.__setitem__("c", np.array(cols[0], dtype=float)))
+        g.mcintegral(np.full(n, 100.0), np.full(n, math.cos(math.radians(1.5))), np.full(n, 0.5), 10.0, 1.0, 1.0, lenDec=np.zeros(n), method=method, store=lambda names, cols: rec.__setitem__("c", np.array(cols[0], dtype=float)))
         return rec["c"].tobytes() + str(n).encode()
 
     with warnings.catch_warnings():
         warnings.simplefilter("ignore")
-        fresh = [contrib(RegionGeomToO(cfg), b) for b in batches]
+        fresh = [contrib(RegionGeomToO(cfg), batches[k], m) for k, m in steps]
         KEPT_INFO[:] = [len(f) for f in fresh]
         n = 0
-        for seq in itertools.product(range(len(batches)), repeat=2):
+        seqs = list(itertools.product(range(len(steps)), repeat=2))
+        # optical - radio - optical on one object (what a caller evaluating the channels in turn does)
+        seqs += [(a, r, b) for a in (0, 7) for r in (len(steps) - 2, len(steps) - 1) for b in (0, 7, 8)]
+        for seq in seqs:
             g = RegionGeomToO(cfg)
-            for pos, k in enumerate(seq):
+            for pos, si in enumerate(seq):
                 n += 1
-                if contrib(g, batches[k]) != fresh[k]:
-                    out.append(("cut_evaluated_at_each_event_time_after_rethrow", list(seq[: pos + 1]), "same as a fresh object", "differs"))
+                k, m = steps[si]
+                if contrib(g, batches[k], m) != fresh[si]:
+                    out.append(("cut_evaluated_at_each_event_time_after_rethrow", [list(steps[i]) for i in seq[: pos + 1]], "same as a fresh object", "differs"))
                     break
     return out, n
 
